@@ -457,6 +457,10 @@ def _mean(x, axis=None, keepdims=False, **k):
 
 
 def _isclose(a, b, *args, **kw):
+    if isinstance(a, (list, tuple)):
+        a = _asarr(a)
+    if isinstance(b, (list, tuple)):
+        b = _asarr(b)
     d = a - b
     if is_arr(d):
         out = np.empty(d.shape, dtype=object)
@@ -465,6 +469,42 @@ def _isclose(a, b, *args, **kw):
         return out
     z = is_zero(d, deep=False)
     return True if z else sp.Eq(sp.sympify(a), sp.sympify(b))
+
+
+class ToleranceLog:
+    """Every tolerant comparison (np.isclose / np.allclose) evaluated in a model run, with its operands.  The evaluator idealises such a comparison as exact equality;
+    that is sound for round-off clean-up but hides one class of slip: a quantity that carries a physical scale (a length in the caller's units) compared against zero,
+    where the relative tolerance is void and the absolute one (1e-8 by default) is a length in arbitrary units.  Rules install the log through `np_override` and ask
+    `absolute_on_scaled()` for those sites."""
+
+    def __init__(self):
+        self.items = []
+
+    def overrides(self):
+        return {'numpy.isclose': self.isclose, 'numpy.allclose': self.allclose}
+
+    def isclose(self, a, b, *args, **kw):
+        self.items.append((a, b, kw))
+        return _isclose(a, b)
+
+    def allclose(self, a, b, *args, **kw):
+        self.items.append((a, b, kw))
+        return _all(_isclose(a, b))
+
+    def absolute_on_scaled(self, scale_free=()):
+        """comparisons against exact zero whose other operand depends on a real-valued (non-integer) symbol not listed as scale-free"""
+        out = []
+        for a, b, kw in self.items:
+            bz = all(is_zero(x) for x in np.ravel(np.asarray(_asarr(b) if isinstance(b, (list, tuple)) else b, dtype=object)))
+            if not bz:
+                continue
+            syms = set()
+            for x in np.ravel(np.asarray(_asarr(a) if isinstance(a, (list, tuple)) else a, dtype=object)):
+                if isinstance(x, sp.Basic):
+                    syms |= {s_ for s_ in x.free_symbols if not s_.is_integer and s_ not in scale_free}
+            if syms:
+                out.append((a, sorted(map(str, syms)), kw))
+        return out
 
 
 NP_FUNCS = {
@@ -1080,7 +1120,9 @@ class SymEval:
                 return r if isinstance(op, ast.In) else not r
             raise Opaque('membership ' + norm(n))
         if isinstance(op, (ast.Is, ast.IsNot)):
-            r = (a is b) if (a is None or b is None or isinstance(a, bool) or (isinstance(a, (SymObj, PyStub)) and isinstance(b, (SymObj, PyStub)))) else None
+            a = bool(a) if (a is sp.true or a is sp.false) else a
+            b = bool(b) if (b is sp.true or b is sp.false) else b
+            r = (a is b) if (a is None or b is None or isinstance(a, bool) or isinstance(b, bool) or (isinstance(a, (SymObj, PyStub)) and isinstance(b, (SymObj, PyStub)))) else None
             if r is None:
                 raise Opaque('identity ' + norm(n))
             return r if isinstance(op, ast.Is) else not r
@@ -1463,7 +1505,7 @@ class SymEval:
         return v
 
     _TYPES = {'int': (int, sp.Integer), 'float': (float, sp.Float, sp.Rational), 'str': (str,), 'tuple': (tuple,), 'list': (list,), 'dict': (dict,),
-              'bool': (bool,), 'np.integer': (int, sp.Integer), 'numpy.integer': (int, sp.Integer), 'np.ndarray': (np.ndarray,), 'numpy.ndarray': (np.ndarray,),
+              'bool': (bool,), 'np.bool_': (np.bool_,), 'numpy.bool_': (np.bool_,), 'np.integer': (int, sp.Integer), 'numpy.integer': (int, sp.Integer), 'np.ndarray': (np.ndarray,), 'numpy.ndarray': (np.ndarray,),
               'np.floating': (float, sp.Float), 'Integral': (int, sp.Integer), 'Real': (int, float, sp.Integer, sp.Float, sp.Rational)}
 
     def _type_exprs(self, t, depth=0):
